@@ -107,6 +107,19 @@ def scan_items(toks):
                 else:
                     i = j + 1
                 continue
+            if k == 'id' and v == 'trait' and toks[i + 1][0] == 'id':
+                # trait Name<..>: Bounds { default methods }
+                name = toks[i + 1][1]
+                j = i + 2
+                while toks[j][1] not in ('{', ';'):
+                    j += 1
+                if toks[j][1] == '{':
+                    end = match_close(toks, j)
+                    scan(j + 1, end, name + '::')
+                    i = end + 1
+                else:
+                    i = j + 1
+                continue
             if k == 'id' and v == 'impl':
                 j = i + 1
                 hdr = []
@@ -358,7 +371,14 @@ class P:
                 continue
             if v == '[':
                 self.eat()
-                ix = self.expr()
+                if self.peek() == '..':
+                    self.eat()
+                    ix = ('rangeidx', None, None if self.peek() == ']' else self.expr())
+                else:
+                    ix = self.expr()
+                    if self.peek() == '..':
+                        self.eat()
+                        ix = ('rangeidx', ix, None if self.peek() == ']' else self.expr())
                 self.eat(']')
                 e = ('index', e, ix)
                 continue
@@ -366,7 +386,9 @@ class P:
                 e = ('call', e[1], self.args())
                 continue
             if v == '?':
-                raise TranslateError('? operator not supported')
+                self.eat()
+                e = ('try', e)          # parsed, never translated (`ev` rejects it)
+                continue
             return e
 
     def primary(self, nostruct):
@@ -375,6 +397,9 @@ class P:
             self.eat()
             m = re.match(r'^(0x[0-9a-fA-F_]+?|[0-9][0-9_]*?)_?((?:[ui](?:8|16|32|64|128|size))?)$', v)
             return ('int', int(m.group(1).replace('_', ''), 0), m.group(2) or None)
+        if k == 'str' or k == 'chr':
+            self.eat()
+            return ('str', v)           # parsed, never translated
         if v == '(':
             self.eat()
             es = []
@@ -1154,6 +1179,8 @@ class FnEmitter:
         Pw = P2(w)
         if name == 'wrapping_neg':
             return SV('(%s - %s) %% %s' % (Pw, paren(x.e), Pw), x.ty, x.fv)
+        if name in ('to_le_bytes',) and not args:
+            return x                    # the little-endian byte array of a word is represented by the word
         if name in INT_METHODS0:
             if args:
                 raise TranslateError('method %s takes no arguments' % name)
@@ -1221,6 +1248,11 @@ class FnEmitter:
         if name == 'from' and segs[0] in ('Self', self.mod.ftype, 'BaseElement'):
             x = self.ev(args[0], env, None)
             return self.f_new(self.cast(x, self.mod.rawty))
+        if name == 'from_le_bytes' and len(segs) == 2 and segs[0] in INT_TYPES and is_unsigned(segs[0]) and len(args) == 1:
+            x = self.ev(args[0], env, segs[0])
+            if x.agg or x.ty != segs[0]:
+                raise TranslateError('from_le_bytes of %r' % (x.ty,))
+            return x
         if name in ('min', 'max') and len(segs) >= 2 and segs[-2] == 'cmp' and len(args) == 2:
             if args[0][0] == 'int' and args[0][2] is None:
                 y = self.ev(args[1], env, want)
@@ -2038,6 +2070,29 @@ class ModuleCtx:
                 self.out.append('def %s : %s := %s' % (ln, lean_const_type(v), lean_const(v)))
         return v
 
+    def add_frag(self, key, leanname, steps, params, ret, hints=None):
+        """translate ONE sub-expression of the function `key` (see select_expr) as a function of the
+        listed free variables `params` = [(name, rust type)] with result type `ret` — for integer logic
+        that sits inside a function the subset does not cover (I/O, `?`, slices)."""
+        it = self.items.get(key)
+        if it is None or it.kind != 'fn':
+            raise TranslateError('fn %s not found in %s' % (key, self.path))
+        try:
+            _name, _params, _ret, body = parse_fn(it)
+            e = select_expr(body, steps)
+            em = FnEmitter(self, leanname, [(n, t) for n, t in params], ret, ('block', [], e))
+            em.hints = hints or {}
+            em.run()
+            want = em.norm_ty(ret)
+            if em.result.agg or em.result.ty != want:
+                raise TranslateError('fragment has type %r, expected %s' % (em.result.ty, want))
+            self.out.append(em.render())
+        except TranslateError as ex:
+            raise TranslateError('%s :: %s %r: %s' % (self.path, key, steps, ex))
+        except (KeyError, TypeError, IndexError, AttributeError, ValueError) as ex:
+            raise TranslateError('%s :: %s %r: internal %s: %s' % (self.path, key, steps, type(ex).__name__, ex))
+        return em
+
     def add_fn(self, key, leanname, generic_f=False, hints=None):
         it = self.items.get(key)
         if it is None or it.kind != 'fn':
@@ -2062,6 +2117,61 @@ class ModuleCtx:
         self.sigs[key] = (leanname, em.ptys, em.rty)
         self.sigs[key.split('::')[-1]] = (leanname, em.ptys, em.rty) if key.split('::')[-1] not in self.sigs else self.sigs[key.split('::')[-1]]
         return em
+
+def select_expr(body, steps):
+    """navigate to a sub-expression of a parsed function body: ('let', name) = initialiser of the first
+    `let name` (searched through nested blocks), 'then' / 'else' = branch of an `if`, 'final' = final
+    expression of a block."""
+    def find_let(blk, name):
+        for st in blk[1]:
+            if st[0] == 'let' and st[1] == ('pvar', name) and st[3] is not None:
+                return st[3]
+            subs = []
+            if st[0] == 'let' and st[3] is not None:
+                subs.append(st[3])
+            if st[0] in ('expr',):
+                subs.append(st[1])
+            if st[0] == 'while':
+                subs.append(st[2])
+            if st[0] == 'for':
+                subs.append(st[3])
+            for x in subs:
+                r = find_in(x, name)
+                if r is not None:
+                    return r
+        if blk[2] is not None and blk[2][0] != 'return':
+            return find_in(blk[2], name)
+        return None
+    def find_in(e, name):
+        if not isinstance(e, tuple):
+            return None
+        if e[0] == 'block':
+            return find_let(e, name)
+        if e[0] == 'if':
+            r = find_let(e[2], name)
+            if r is None and e[3] is not None:
+                r = find_let(e[3], name)
+            return r
+        return None
+    cur = body
+    for st in steps:
+        if isinstance(st, tuple) and st[0] == 'let':
+            if cur[0] != 'block':
+                raise TranslateError('fragment: let %s searched in a non-block' % st[1])
+            cur = find_let(cur, st[1])
+            if cur is None:
+                raise TranslateError('fragment: let %s not found' % st[1])
+        elif st in ('then', 'else'):
+            if cur[0] != 'if' or (st == 'else' and cur[3] is None):
+                raise TranslateError('fragment: %s of a non-if' % st)
+            cur = cur[2] if st == 'then' else cur[3]
+        elif st == 'final':
+            if cur[0] != 'block' or cur[2] is None or cur[2][0] == 'return':
+                raise TranslateError('fragment: block without final expression')
+            cur = cur[2]
+        else:
+            raise TranslateError('fragment step %r' % (st,))
+    return cur
 
 PRELUDE = '''/-- two's-complement reinterpretation of an unsigned `w`-bit word as a signed integer -/
 def toSigned (w : Nat) (x : Nat) : Int :=
